@@ -125,7 +125,7 @@ CHECKS["C18"] = dict(
 
 CHECKS["C03"] = dict(
     category="proof",
-    text="The document the real XML writer produces (abstract tree, symbolic values; lanelet network with sign / light / intersection / stop line, every obstacle role, planning problems with region / interval goals, location and tags) is validated against content models parsed on every run from the shipped XSD: element order and occurrence (sequence / choice / all with min/maxOccurs), required and undeclared attributes, enumeration values, the lexical class of every number against the XSD type (a text produced by str(float) is in exponent notation exactly for |x| < 1e-4 or |x| >= 1e16, which xs:decimal does not admit - a z3 condition), numeric ranges (positiveInteger, ...) and the id key / idref keyref constraints as z3 conditions over symbolic ids. Acceptance by the library's own reader is the C01 round trip.",
+    text="The document the real XML writer produces (abstract tree, symbolic values; lanelet network with sign / light / intersection / stop line, every obstacle role, planning problems with region / interval goals, location and tags) is validated against content models parsed on every run from the shipped XSD: element order and occurrence (sequence / choice / all with min/maxOccurs), required and undeclared attributes, enumeration values, the lexical class of every number against the XSD type (a text produced by str(float) is in exponent notation exactly for |x| < 1e-4 or |x| >= 1e16, which xs:decimal does not admit - a z3 condition), numeric ranges (positiveInteger, ...) and the id key / idref keyref constraints as z3 conditions over symbolic ids. Additionally EXHAUSTIVE over the enumeration members the schema lists: one valid document per group carrying every schema-listed LaneletType, vehicle type, line marking (bounds and stop lines), obstacle type per role, traffic light colour, environment value and, per country, traffic sign id (20 documents; the same documents validate with lxml's XMLSchema in the native cross-check). Acceptance by the library's own reader is the C01 round trip.",
     note="own XSD validator for the subset of XSD the shipped schema uses (no substitution groups, wildcards, xs:union); float_to_str by contract (plain decimal); one document shape per content group, values symbolic; native replays validate the real file with lxml.XMLSchema",
     technique="deductive: AST symbolic execution of the real writer + validation of the abstract tree against XSD content models, lexical-class and range conditions discharged by z3",
     design_ref="5/C03",
